@@ -7,6 +7,7 @@
 //!   walking-zero / single-byte bit patterns for integers, a catalogue of special code points and
 //!   look-alike strings for text, all-byte-value blobs for binary data;
 //! * (F) slot pairs (thorough): every unordered pair of slots x a short atom list per kind;
+//! * (H) relations: every pair of compatible slots holding equal / prefix-related content (see `relations`);
 //! * (G) flag/code products: every flag combination (CONNECT flag group, PUBLISH dup/qos/retain)
 //!   and every reason code behind every single-property set.
 //!
@@ -172,7 +173,7 @@ fn bit_patterns(bits: u32) -> Vec<u32> {
             v.push((mask & !(0xFFu32 << (8 * i))) | ((b << (8 * i)) & mask)); // one byte set, the others 0xFF
         }
     }
-    for x in [0u32, mask, 0x8080_8080, 0x7F7F_7F7F, 0x0102_0304, 0x0403_0201, 0xFFFF_0000, 0x0000_FFFF, 0x00FF_00FF, 0xFF00_FF00, 0xDEAD_BEEF] {
+    for x in [0u32, mask, 0x0102, 0x0081, 0x8080_8080, 0x7F7F_7F7F, 0x0102_0304, 0x0403_0201, 0xFFFF_0000, 0x0000_FFFF, 0x00FF_00FF, 0xFF00_FF00, 0xDEAD_BEEF] {
         v.push(x & mask);
     }
     let mut seen = HashSet::new();
@@ -223,6 +224,10 @@ pub fn text_atoms() -> Vec<String> {
     .iter()
     .map(|s| s.to_string())
     .collect();
+    // the values the OTHER fields of the full packets hold: equal content in two different fields
+    for b in ["c", "w", "u", "s", "k", "v", "t", "k2", "p"] {
+        v.push(b.to_string());
+    }
     // every printable ASCII character in one string, and every Latin-1 letter in one string
     v.push((0x20u8..0x7F).map(|b| b as char).collect());
     v.push((0xA0u32..0x100).filter_map(char::from_u32).collect());
@@ -256,6 +261,9 @@ pub fn bin_atoms() -> Vec<Vec<u8>> {
         vec![0x26, 0x00, 0x01, b'a', 0x00, 0x01, b'b'],
         "é".as_bytes().to_vec(),
         "a\u{0}b".as_bytes().to_vec(),
+        // equal to what other fields of the full packets hold
+        b"p".to_vec(),
+        b"u".to_vec(),
     ]
 }
 
@@ -509,6 +517,39 @@ fn flag_products(family: Family) -> Vec<Ast> {
     out
 }
 
+/// (H) relations between slots: every unordered pair of slots of compatible kind of every full packet holds
+/// equal content, and content where one is a proper prefix of the other (both directions); numeric slots hold
+/// the same number. Varying one field at a time never produces these.
+fn relations(family: Family) -> Vec<Ast> {
+    let mut out = Vec::new();
+    let textual = |k: Kind| matches!(k, Kind::Text | Kind::TopicName | Kind::Filter | Kind::Bin | Kind::Utf8Bin);
+    for b in bases(family) {
+        let ks = kinds(&b);
+        for i in 0..ks.len() {
+            for j in (i + 1)..ks.len() {
+                if textual(ks[i]) && textual(ks[j]) {
+                    for (x, y) in [("eq", "eq"), ("eq", "eqz"), ("eqz", "eq"), ("qe", "eq")] {
+                        let a = with_slot(&b, i, &Atom::S(x.to_string()));
+                        out.push(with_slot(&a, j, &Atom::S(y.to_string())));
+                    }
+                } else if !textual(ks[i]) && !textual(ks[j]) {
+                    for (x, y) in [(0x1234u32, 0x1234u32), (0x1234, 0x3412)] {
+                        let a = with_slot(&b, i, &Atom::N(x));
+                        out.push(with_slot(&a, j, &Atom::N(y)));
+                    }
+                }
+            }
+        }
+        // every textual slot equal to every other at once, every numeric slot equal at once
+        let mut all = b.clone();
+        for (i, k) in ks.iter().enumerate() {
+            all = with_slot(&all, i, &if textual(*k) { Atom::S("same".into()) } else { Atom::N(0x0707) });
+        }
+        out.push(all);
+    }
+    out
+}
+
 /// statistics of one `u_field` call (for the evidence)
 #[derive(Clone, Debug, Default)]
 pub struct FieldStats {
@@ -517,6 +558,7 @@ pub struct FieldStats {
     pub each_slot: usize,
     pub pairs: usize,
     pub flag_products: usize,
+    pub relations: usize,
     pub dropped_by_grammar: usize,
     pub kept: usize,
 }
@@ -553,6 +595,9 @@ pub fn u_field(family: Family, pairs: bool) -> (Vec<Ast>, FieldStats) {
     let fp = flag_products(family);
     st.flag_products = fp.len();
     cand.extend(fp);
+    let rel = relations(family);
+    st.relations = rel.len();
+    cand.extend(rel);
     let mut seen = HashSet::new();
     cand.retain(|a| seen.insert(a.clone()));
     let total = cand.len();
